@@ -26,10 +26,10 @@ RULE = (
     ">= 31."
 )
 ASSUMPTIONS = [
-    "functions are called module-qualified (the legacy environment shadows "
-    "List->reverse with String->reverse)",
-    "gcd/lcm are compared up to sign (the sign convention for negative "
-    "arguments is not stated); pow only with exponent >= 0",
+    "functions are called module-qualified, in the legacy and in the default "
+    "environment; the unqualified legacy names are checked as well",
+    "gcd and lcm are the mathematical ones (never negative, lcm(0, x) = "
+    "gcd(0, 0) = 0); pow only with exponent >= 0",
     "for shift counts >= 32 both the mathematical and the count-mod-32 "
     "convention are accepted; operands of bitwise functions are 32-bit words",
     "decimal results are compared with relative tolerance 1e-9",
@@ -70,20 +70,30 @@ def same(got, want, typed=True):
 
 
 def run_items(label_ns, pre, items):
-    res = cklrun.run_batch(pre, [e for _, e, _ in items], budget=60)
-    for (label, e, want), r in zip(items, res):
-        if r[0] != "ok":
-            return Finding(f"C19|{label}|{r[0]}" +
-                           (f"-{r[1]}" if r[0] == "host" else ""),
-                           f"{pre}; {e} -> {r}")
-        got = r[1]
-        if callable(want):
-            ok, why = want(got)
-            if not ok:
-                return Finding(f"C19|{label}", f"{pre}; {e} = {got!r}: {why}")
-        elif not same(got, want):
-            return Finding(f"C19|{label}",
-                           f"{pre}; {e} = {got!r}, expected {want!r}")
+    # in the legacy environment (everything also bound unqualified) and in
+    # the default one, where only what a module requires itself is visible
+    all_items = items
+    for legacy in (True, False):
+        mode = "" if legacy else "|non-legacy"
+        items = [it for it in all_items
+                 if legacy or not it[0].startswith("legacy-")]
+        res = cklrun.run_batch(pre, [e for _, e, _ in items], budget=60,
+                               legacy=legacy)
+        for (label, e, want), r in zip(items, res):
+            if r[0] != "ok":
+                return Finding(f"C19|{label}|{r[0]}" +
+                               (f"-{r[1]}" if r[0] == "host" else "") + mode,
+                               f"{pre}; {e} -> {r}" + mode)
+            got = r[1]
+            if callable(want):
+                ok, why = want(got)
+                if not ok:
+                    return Finding(f"C19|{label}" + mode,
+                                   f"{pre}; {e} = {got!r}: {why}" + mode)
+            elif not same(got, want):
+                return Finding(f"C19|{label}" + mode,
+                               f"{pre}; {e} = {got!r}, expected {want!r}"
+                               + mode)
     return None
 
 
@@ -170,6 +180,8 @@ def check_list(xs, ys, k):
          "List->unique(List->unique(xs)) == List->unique(xs)", True),
         ("reverse", "List->reverse(xs)", xs[::-1]),
         ("reverse_list", "List->reverse_list(xs)", xs[::-1]),
+        ("legacy-reverse", "reverse(xs)", xs[::-1]),
+        ("legacy-reverse-pipeline", "xs !> reverse()", xs[::-1]),
         ("reverse-involution",
          "List->reverse(List->reverse(xs)) == xs", True),
         ("flatten", f"List->flatten({mv.literal(flat_in)})", flat_want),
@@ -270,16 +282,11 @@ def check_ints(a, b, e):
         ("prod-ints", "List->prod([a, b, a])", a * b * a),
         ("mul-div-exact", "a * b / b" if b else "0", a if b else 0),
     ]
-    if a or b:
-        g = math.gcd(a, b)
-        items.append(("gcd", "Math->gcd(a, b)",
-                      lambda v: (type(v) is int and abs(v) == g,
-                                 f"expected +-{g}")))
-        if a and b:
-            l = abs(a * b) // g
-            items.append(("lcm", "Math->lcm(a, b)",
-                          lambda v: (type(v) is int and abs(v) == l,
-                                     f"expected +-{l}")))
+    # the mathematical results: never negative, gcd(0, 0) = lcm(0, x) = 0
+    items.append(("gcd", "Math->gcd(a, b)", math.gcd(a, b)))
+    items.append(("lcm", "Math->lcm(a, b)", math.lcm(a, b)))
+    items.append(("gcd-lcm", "Math->gcd(a, b) * Math->lcm(a, b)",
+                  abs(a * b)))
     return run_items("int", pre, items)
 
 
